@@ -485,6 +485,8 @@ def run(ctx):
 
     # B: gates
     offs = [x / 10.0 for x in range(-30, 31, 1)] if not ctx.quick else [x / 10.0 for x in range(-12, 13, 2)]
+    # long after the gate closed: past the not-responding report(s) of the ping loop
+    offs += [8.0, 15.0, 40.0, 75.0, 130.0, 200.0]
     jobs = [(api, off, q) for api in GATED for off in offs for q in (False, True)]
     sent_n = 0
     for (viol, res), job in zip(core.pmap(ctx, _gate_job, jobs, chunksize=2), jobs):
